@@ -23,12 +23,14 @@ MANIFEST_ENTRY = {
           "data object, the program the tree compiler builds is typable, ends every expression at depth one and is entered at (0,0); "
           "C06_balanced_operator_expressions (unbounded, on the operator fragment): for EVERY token list on which the reference "
           "precedence-climbing parser of C02 is defined (values, prefix / suffix / binary operators of every rank, conditionals and "
-          "else-chains, && / ||, apply forms `<~` `~>` `~~`, `^~`, comma and space lists, round brackets ( ) and nested expressions { } to any depth, whitespace; C02_full) and that contains no expression separator `;` (hypothesis no_separators toks -- the reference now also covers `;`, this theorem does not yet) the parsed tree, "
+          "else-chains, && / ||, apply forms `<~` `~>` `~~`, `^~`, comma and space lists, round brackets ( ) and nested expressions { } to any depth, the statement separator `;` at top level and directly inside { }, whitespace; C02_full) the parsed tree, "
           "unless in C06-K1 / K3 / K4 (chain classes read at the head of the chain), keeps the discipline, so every program "
           "BuilderWL.build emits for it is typable - by induction on C02's index-carrying tree through Proofs/Builder/PrattBridge.v; "
           "a nested expression is an out-of-line body that must itself keep the discipline and is one value as an operand; "
+          "a sequence `a ; b` evaluates both sides from the same pending state, drops the left value and leaves the right one, "
+          "so programs of several statements and multi-statement function bodies are covered; "
           "C06-K2 and C05-K2 cannot occur there (C06_operator_expressions_no_K2). Outside that fragment (side-effect "
-          "blocks, `;`, `;;`): C06_balanced_covers_*: on the same three bounded input spaces every accepted program outside the finding classes keeps the "
+          "blocks, line-break separators, `;;`): C06_balanced_covers_*: on the same three bounded input spaces every accepted program outside the finding classes keeps the "
           "discipline (beyond the bounds this is checked per program on every run, field L of the model driver). The tree compiler is "
           "tied to the worklist model of build() by compile_agrees_full (Properties/C05.v, proved for ALL node arrays that form a proper "
           "tree, all initial states, all fuel: a successful build IS the tree compiler's result), so C06_static_full_builder states "
